@@ -117,6 +117,9 @@ pub fn record_stats(scn: &ReadScn, cfg: &Cfg, log: &RunLog, st: &mut Stats) -> O
     st.count("step.total_seam_calls", log.total_steps);
     st.count("fault.interrupted_read", log.interrupts);
     st.count("fault.short_read", log.short_reads);
+    if scn.profile == crate::drive::FIFO_PROFILE {
+        st.probe("probe.reader_opened_on_a_fifo");
+    }
     if log.false_eofs > 0 {
         st.count("fault.zero_length_read_before_the_end", log.false_eofs);
     }
@@ -338,7 +341,18 @@ fn path_scn(rng: &Rng, fmt: Fmt, max_recs: usize, max_noise: usize) -> ReadScn {
     let mut cfg = Cfg::plain(if rng.chance(1, 2) { 65536 } else { rng.range(3, 64) });
     cfg.policy = gen_permissive_policy(rng, input.len());
     let n = model::build(fmt, &input).items.len();
-    ReadScn { fmt, input, cfgs: vec![cfg], ops: ops_next_to_end(n), mon: Monitors::default(), profile: crate::drive::PATH_PROFILE.into() }
+    let mut profile = crate::drive::PATH_PROFILE;
+    if rng.chance(1, 3) {
+        // the path names a FIFO: length 0 in the metadata, data arrives in pieces (see drive::fifo_writer)
+        profile = crate::drive::FIFO_PROFILE;
+        cfg.script = match rng.below(4) {
+            0 => vec![],
+            1 => vec![rng.range(1, 9) as u32],
+            2 => vec![rng.range(1, 40) as u32, rng.range(1, 400) as u32],
+            _ => vec![rng.range(1, 4096) as u32],
+        };
+    }
+    ReadScn { fmt, input, cfgs: vec![cfg], ops: ops_next_to_end(n), mon: Monitors::default(), profile: profile.into() }
 }
 
 pub fn gen_read_scn(id: &str, rng: &Rng, tier: Tier) -> ReadScn {
@@ -351,6 +365,20 @@ pub fn gen_read_scn(id: &str, rng: &Rng, tier: Tier) -> ReadScn {
             }
             if rng.chance(1, 3000) {
                 return huge_scn(rng, fmt);
+            }
+            if fmt == Fmt::Fasta && rng.chance(1, 20000) {
+                // hundreds of thousands of refills before the first record: work per refill must not
+                // pile up (recursion depth, retained state). A stack overflow kills the process:
+                // the scenario is marked risky (in-flight file, see DESIGN 17)
+                let crlf = rng.chance(1, 3);
+                let n = rng.range(150_000, 1_200_000);
+                let mut input: Vec<u8> = Vec::with_capacity(2 * n + 16);
+                for _ in 0..n {
+                    input.extend_from_slice(if crlf { b"\r\n" } else { b"\n" });
+                }
+                input.extend_from_slice(b">a b\nAC\nG\n");
+                let cfg = Cfg::plain(rng.range(3, 12));
+                return ReadScn { fmt, input, cfgs: vec![cfg], ops: ops_next_to_end(1), mon: Monitors::default(), profile: "deep_blank_prefix".into() };
             }
             if rng.chance(1, 4000) {
                 // interrupt storm / short reads into a large buffer
@@ -749,6 +777,9 @@ impl Check for ReadCheck {
 /// an exact-count read with an astronomically large n may make a (changed) library try to
 /// allocate that much: an allocation failure aborts the process
 pub fn scenario_is_risky(scn: &Value) -> bool {
+    if scn.get("profile").and_then(|p| p.as_str()).map(|p| p.starts_with("deep_")).unwrap_or(false) {
+        return true;
+    }
     let ops = scn.get("ops").or_else(|| scn.get("base").and_then(|b| b.get("ops"))).or_else(|| scn.get("read").and_then(|b| b.get("ops")));
     match ops.and_then(|o| o.as_array()) {
         Some(a) => a.iter().any(|op| op.get("ReadSetExact").and_then(|x| x.as_array()).and_then(|x| x.get(1)).and_then(|n| n.as_u64()).map(|n| n >= 1 << 20).unwrap_or(false)),
